@@ -11,7 +11,7 @@ import re
 
 from . import common as C
 
-THEOREMS = ["subslice_spec", "subslice_wf", "copy_spec", "copyArray_memmove", "append_spec",
+THEOREMS = ["subslice_spec", "subslice_wf", "copy_spec", "copyArray_memmove", "append_spec", "appendSlice_spec",
             "append_fresh_elems_counterexample", "append_fresh_elems_partial",
             "clone_deep", "copy_in_place", "no_sharing", "value_semantics_partial", "cloneAt_newLocation",
             "value_semantics_cloneAt", "no_sharing_cloneAt", "value_semantics_counterexample",
